@@ -94,7 +94,7 @@ def gen_module(rng):
         lines = HEADER + filler(rng.randint(0, 8)) + ["MSG = 'raised while importing'", stmt + "  #FAIL"] + filler(rng.randint(0, 3))
         entry = None
     else:
-        lines = HEADER + filler(rng.randint(0, 8))
+        lines = HEADER + filler(rng.randint(0, 8) if rng.random() < 0.8 else rng.randint(40, 1200))
         if pos == "nested":
             lines += ["def fail():", "    def inner(n):"] + filler(rng.randint(0, 4), "        ") + ["        " + stmt + "  #FAIL"] + filler(rng.randint(0, 5), "        ")
             lines += ["    return inner(3)"]
